@@ -9,7 +9,7 @@ if [ -d tools/gofacts ]; then
   (cd tools/gofacts && go build -o ../../build/gofacts . && ../../build/gofacts -repo /repo -out ../../lean/TeleportModel/Generated -json ../../build/facts.json) || echo "gofacts failed (checks will report it)"
 fi
 # Lean: models, proofs, driver
-(cd lean && lake build) || echo "lake build failed (checks will report it)"
+python3 tools/genmain.py; (cd lean && lake build) || echo "lake build failed (checks will report it)"
 # Go harness against /repo's working tree (warms the build cache)
 cp /repo/go.sum harness/go.sum
 (cd harness && go test -c -tags verif -o ../build/harness.test .) || echo "harness build failed (checks will report it)"
